@@ -22,6 +22,12 @@ INFO = {
  'C17': ('C17', "log_ode fast path for additive noise reuses g(t0) dW from the first stage instead of g(t0+dt/2) dW", "additive noise declared, method log_ode, time-dependent diffusion"),
  'C18': ('C18', "SDELogqp.f_general: 0.5 * u.sum()**2 instead of 0.5 * (u**2).sum()", "non-diagonal noise, a solver that calls sde.f directly (srk, derivative Milstein), >= 2 non-zero entries of u (additive noise with m >= 2)"),
  'C19': ('C19', "refactor of the size-consistency loops checks state_sizes twice and never noise_sizes", "explicit bm whose channel count differs from the diffusion's noise size (diagonal: silently broadcast)"),
+ 'C03b': ('C03', "zero-length shortcut rewritten as `tb - ta < tol`: a query exactly one grid step long whose float difference falls a hair below tol returns zeros", "tol > 0 and a one-grid-step query with float rounding in tb - ta (not visible in real arithmetic)"),
+ 'C04b': ('C04', "spawn key masked to 32 bits: nodes at depth >= 33 whose last 32 left/right steps agree share all noise seeds", "trees of depth >= 33 (a fixed-step sweep with a dt hint produces them): cross-covariances between far-apart intervals"),
+ 'C07b': ('C07', "rounded-coincidence test guarded by `tb - ta < tol`: with a tolerance that is not a power of ten the rounding grid is coarser than tol", "halfway_tree, tol such as 5e-2 / 5e-4, a query at least tol long whose ends round to the same grid point: RecursionError"),
+ 'C12b': ('C12', "`if curr_t >= out_t: ys.append(curr_y)` fast path: later outputs inside an already-taken step are not interpolated", "two or more output times strictly inside the same step"),
+ 'C14b': ('C14', "_rms for sequences: mean over batch rows of per-row RMS instead of the RMS over all elements", "batch size > 1 with different per-row errors: error norm under-estimated, steps with error > 1 accepted"),
+ 'C19b': ('C19', "_select_default_adjoint_method tests `method == adjoint_reversible_heun` instead of `reversible_heun`", "sdeint_adjoint(method='reversible_heun') with adjoint_method omitted: backward silently uses midpoint"),
  'C20': ('C20', "Levy-area noise drawn at size[1:-1] + (m, m) and broadcast over the batch", "davie/foster, batch >= 2, m >= 2: all batch rows share the Levy-area noise (marginals unchanged)"),
 }
 for sid, (prop, what, needs) in INFO.items():
